@@ -144,7 +144,7 @@ class AccfgGen:
                 arg = self.fresh("lc")
                 node["carry"].append([arg, r.choice(scope), None])
                 inner = inner + [arg]
-                node["body"] = [self.simple("pure", inner) for _ in range(r.randint(1, 2))]
+                node["body"] = [self.simple("pure", inner, mem=False) for _ in range(r.randint(1, 2))]
                 node["carry"][0][2] = node["body"][-1]["name"]
                 res = self.fresh("fr")
                 node["res"].append(res)
@@ -194,7 +194,7 @@ class AccfgGen:
             node["else"] = self.stmts(r.randint(0, 2), list(scope), depth + 1, inloop)
         return node
 
-    def simple(self, k, scope):
+    def simple(self, k, scope, mem=True):
         r, p = self.r, self.p
         if k == "call":
             self.tag += 1
@@ -207,6 +207,13 @@ class AccfgGen:
         if k == "opq":
             self.tag += 1
             return {"k": "opq", "tag": self.tag, "args": [r.choice(scope) for _ in range(r.randint(0, 2))]}
+        if mem and p.get("memory") and r.random() < p["memory"]:
+            # configuration values kept in memory: a store of some value, or a load whose result can feed later setups
+            if r.random() < 0.5:
+                return {"k": "st", "val": r.choice([x for x in scope if x not in INDEX_ARGS] or ["%x0"])}
+            v = self.fresh("m")
+            scope.append(v)
+            return {"k": "ld", "name": v}
         v = self.fresh("v")
         st = {"k": "pure", "op": r.choice(PURE_OPS), "a": r.choice(scope), "b": r.choice(scope), "name": v}
         scope.append(v)
@@ -220,7 +227,10 @@ class AccfgGen:
             if self.p.get("n_launch"):
                 st["lvals"] = [self.r.choice(self.p["launch_pool"]) for _ in range(self.p["n_launch"][0])]
             body.append(st)
-        return {"n_acc": self.p["n_acc"], "n_fields": self.p["n_fields"][: self.p["n_acc"]], "body": body, "consts": self.p.get("consts", 0)}
+        ast = {"n_acc": self.p["n_acc"], "n_fields": self.p["n_fields"][: self.p["n_acc"]], "body": body, "consts": self.p.get("consts", 0)}
+        if self.p.get("memory"):
+            ast["memory"] = True
+        return ast
 
 
 def has_kind(s, kind):
@@ -393,6 +403,10 @@ def emit(ast, acc_names=None, vty="i32", decls=()) -> str:
             if s["carry"]:
                 e(ind + 1, "scf.yield " + ", ".join(c[2] for c in s["carry"]) + " : " + ", ".join(vty for _ in s["carry"]))
             e(ind, "}")
+        elif k == "st":
+            e(ind, f'memref.store {s["val"]}, %mem[%c0] : memref<1x{vty}>')
+        elif k == "ld":
+            e(ind, f'{s["name"]} = memref.load %mem[%c0] : memref<1x{vty}>')
         elif k == "if" and s.get("res"):
             name, tv, ev = s["res"]
             e(ind, f'{name} = scf.if {s["cond"]} -> ({vty}) {{')
@@ -424,6 +438,9 @@ def emit(ast, acc_names=None, vty="i32", decls=()) -> str:
         e(2, f"%k{j} = arith.constant {1000 + 7 * j} : {vty}")
     e(2, f"%one = arith.constant 1 : {vty}")
     e(2, f"%zero = arith.constant 0 : {vty}")
+    if ast.get("memory"):
+        e(2, f"%mem = memref.alloc() : memref<1x{vty}>")
+        e(2, f"memref.store %x0, %mem[%c0] : memref<1x{vty}>")
     for nm, v in sorted(ast.get("extra_consts", {}).items()):
         e(2, f"{nm} = arith.constant {v} : {vty}")
     stmts(2, ast["body"])
